@@ -576,6 +576,13 @@ func (gen *Generator) GenerateInclude(args []Sexp) error {
 		return WrongNargs
 	}
 
+	// only the last form of the last file could be in tail position,
+	// and which file is last is not known while they are compiled
+	// one by one: treat no included form as a tail call.
+	oldtail := gen.Tail
+	gen.Tail = false
+	defer func() { gen.Tail = oldtail }()
+
 	var err error
 	var exps []Sexp
 
